@@ -94,6 +94,32 @@ func runC03(cx *ctx) {
 					fmt.Sprintf("recipients=[%s] flip bit %d of %d header bytes", labelsOf(ps), bit, len(hdrBytes)), headerOracle(file))
 			})
 		}
+		// (1b) every single-byte insertion of CR / SP / LF / 'A' / '=' and every single-byte deletion, at every header position
+		insBytes := []byte{'\r', ' ', '\n', 'A', '='}
+		for pos := 0; pos <= len(hdrBytes); pos += step {
+			for _, ib := range insBytes {
+				pos, ib := pos, ib
+				idIdx := pos % len(ids)
+				cx.ru.Do(func() *h.Case {
+					f := append(append(append([]byte(nil), file[:pos]...), ib), file[pos:]...)
+					or := headerOracle(file)
+					if bytes.HasPrefix(f, hdrBytes) {
+						or = nil // the header bytes are intact: this is a payload edit (C02), not a header edit
+					}
+					return fdecCase("insert", f, ids[idIdx:idIdx+1], idDs[idIdx:idIdx+1],
+						fmt.Sprintf("recipients=[%s] insert %q at %d of %d header bytes", labelsOf(ps), ib, pos, len(hdrBytes)), or)
+				})
+			}
+			if pos < len(hdrBytes) {
+				pos := pos
+				idIdx := pos % len(ids)
+				cx.ru.Do(func() *h.Case {
+					f := append(append([]byte(nil), file[:pos]...), file[pos+1:]...)
+					return fdecCase("delete", f, ids[idIdx:idIdx+1], idDs[idIdx:idIdx+1],
+						fmt.Sprintf("recipients=[%s] delete byte %d of %d header bytes", labelsOf(ps), pos, len(hdrBytes)), headerOracle(file))
+				})
+			}
+		}
 		// (2) structural edits
 		edits := cx.n(60, 400)
 		for e := 0; e < edits; e++ {
